@@ -87,6 +87,21 @@ def shard(ctx, acc):
                 acc.known_hit(ks[0], W.brief_case(case))
             else:
                 acc.violation("seek:" + probs[0][0], probs[:4], case)
+    # DEEPMK (one-sided): a folder made two or more levels below a folder that the same user renames in the same window, path-id
+    # acting side, no sync step in between (see C04 / DESIGN 8.3 for the measurement)
+    for i in F.indices(ctx, plan["cases"] // 8):
+        case = F.make_case(ctx.seed, PROP + "deepmk", i, families=("DEEPMK",), flavours=("po", "pp", "op"),
+                           shapes=("burst", "intake"), nops=(1, 2))
+        actor = [e[1]["side"] for e in case["sched"] if e[0] == "U" and e[1]["op"] == "rendir"][0]
+        if any(e[0] == "U" and e[1]["side"] != actor for e in case["sched"]):
+            continue
+        case["family"] = "ONE%d" % actor
+        probs = run(case, acc)
+        if probs is None:
+            continue
+        acc.count("deepmk_one_sided_cases")
+        if probs:
+            acc.violation("deepmk:" + probs[0][0], probs[:4], case)
     # NEST1: one user renames / moves folders *and* works inside them (object graph expectation), acting side id-stable.
     # Measured on the pinned tree (12 000 cases): no failure when the acting side has stable ids and no file has two
     # folder renames above it (nest.hd2); with hd2, or with a path-id acting side (10-28 % fail), it is K1 territory.
